@@ -93,6 +93,12 @@ type c35Scenario struct {
 	// found dead by whoever asks first (a /alive probe or another subsystem's
 	// report) while four probers poll /alive tightly.
 	FlakyHealthMs int `json:"flaky_health_ms,omitempty"`
+	// InitRules: rule set the app starts on (0 keep-all; 1-4 contain
+	// dynsampler-backed samplers, top level and rule downstream, whose
+	// FieldLists have 2-4 entries that are NOT in lexical order, so that the
+	// workers building "the same" sampler at start and after every rules
+	// reload all go through the field-list normalisation).
+	InitRules int `json:"init_rules,omitempty"`
 	// DroppedPerWorker / KeptPerWorker: SampleCache.DroppedSize / KeptSize per
 	// collector worker at start (0 = the large defaults 20000 / 1000 in total);
 	// config reloads switch between 1x and 2x (dropped) / 1x and 3x (kept).
@@ -181,6 +187,7 @@ func genC35(t *rapid.T) c35Scenario {
 		s.DroppedPerWorker = rapid.SampledFrom([]int{64, 512, 4096}).Draw(t, "droppedpw")
 		s.KeptPerWorker = rapid.SampledFrom([]int{2, 8, 64}).Draw(t, "keptpw")
 	}
+	s.InitRules = rapid.SampledFrom([]int{0, 1, 2, 3, 1, 3}).Draw(t, "initrules")
 	n := rapid.IntRange(6, 10).Draw(t, "nactors")
 	if rapid.IntRange(0, 2).Draw(t, "flakyhealth") == 0 || os.Getenv("VERIF_C35_ONLY_FLAKY") != "" {
 		s.FlakyHealthMs = rapid.SampledFrom([]int{500, 1000}).Draw(t, "flakyms")
@@ -583,6 +590,12 @@ func execC35(s c35Scenario) vkit.Result {
 		}
 		if s.DropHeavy {
 			res.Class("drop-heavy")
+		}
+		if s.Workers >= 2 && (rr.summary.Executed[c35ReloadRules] > 0 || s.InitRules%5 != 0 || s.DropHeavy) {
+			res.Class("unsorted-fieldlists+>=2-workers")
+			if rr.summary.Executed[c35ReloadRules] > 0 {
+				res.Class("unsorted-fieldlists+>=2-workers+rules-reload")
+			}
 		}
 		if s.FlakyHealthMs > 0 {
 			res.Class("flaky-health-subsystem")
